@@ -26,6 +26,16 @@ def ensure_build():
     return ok, (r.stdout + r.stderr)[-3000:]
 
 
+def coqchk_status(pid):
+    """independent re-check of the compiled property file (thorough tier): coqchk -o lists the axioms it relies on"""
+    r = sh('timeout 1500 coqchk -silent -o -Q theories DynVerif DynVerif.properties.%s' % pid, cwd=COQ, timeout=1600)
+    out = r.stdout + r.stderr
+    ok = (r.returncode == 0)
+    m = re.search(r'\* Axioms:(.*?)(\* |\Z)', out, re.S)
+    axioms = re.sub(r'\s+', ' ', m.group(1)).strip() if m else ''
+    return dict(ok=ok, axioms=axioms, tail=out[-800:])
+
+
 def proof_status(pid):
     """recompile properties/<pid>.v, return dict(obligations, discharged, axioms, broken, log)"""
     src = os.path.join(COQ, 'theories', 'properties', pid + '.v')
@@ -161,6 +171,44 @@ def write_replay(pid, kind, payload):
     return path
 
 
+def vm_crosscheck(pid, progs):
+    """evaluate a sample of programs INSIDE Coq (vm_compute) and compare with the extracted OCaml model:
+    extraction and the OCaml driver are thereby tested, not merely trusted"""
+    import ast
+    from core import encode_op, run_model_raw
+    enc = [[encode_op(op) for op in p] for p in progs]
+    d = os.path.join(COQ, '.crosscheck')
+    os.makedirs(d, exist_ok=True)
+    path = os.path.join(d, 'cases_%s_%d.v' % (pid, os.getpid()))
+    lit = lambda l: '[' + '; '.join(str(x) if x >= 0 else '(%d)' % x for x in l) + ']'
+    with open(path, 'w') as f:
+        f.write('From DynVerif Require Import Base Encode.\nSet Printing Depth 1000000.\nSet Printing Width 200.\n')
+        for p in enc:
+            f.write('Eval vm_compute in (run_prog [%s]).\n' % '; '.join(lit(op) for op in p))
+    r = sh('timeout 600 coqc -Q theories DynVerif %s' % path, cwd=COQ, timeout=700)
+    for ext in ('.v', '.vo', '.vok', '.vos', '.glob'):
+        try:
+            os.remove(path[:-2] + ext)
+        except OSError:
+            pass
+    try:
+        os.remove(os.path.join(d, '.' + os.path.basename(path)[:-2] + '.aux'))
+    except OSError:
+        pass
+    if r.returncode != 0:
+        return dict(checked=0, mismatches=['coqc failed: ' + (r.stdout + r.stderr)[-300:]])
+    blocks = re.findall(r'=\s*(\[.*?\])\s*:\s*list \(list Z\)', r.stdout, re.S)
+    coq_res = [ast.literal_eval(re.sub(r'\s+', ' ', b).replace(';', ',')) for b in blocks]
+    ocaml = run_model_raw(enc)
+    mism = []
+    if len(coq_res) != len(ocaml):
+        mism.append('parsed %d results, expected %d' % (len(coq_res), len(ocaml)))
+    for i, (a, b) in enumerate(zip(coq_res, ocaml)):
+        if a != b:
+            mism.append(dict(program=i, coq=a[:5], ocaml=b[:5]))
+    return dict(checked=len(coq_res), mismatches=mism[:3])
+
+
 def chunks(it, n):
     buf = []
     for x in it:
@@ -201,6 +249,12 @@ def run_check(mod_name, tier, seed, replay=None):
     pst = proof_status(pid) if ok else dict(obligations=0, discharged=0, axioms=[], broken=['build failed: ' + blog[-800:]],
                                              theorems=[], log=blog, checker_cmd='./setup.sh')
     model_ok = os.path.exists(os.path.join(VERIF, 'bin', 'dynmodel'))
+    chk = None
+    if tier == 'thorough' and ok and not pst['broken']:
+        chk = coqchk_status(pid)
+        if not chk['ok']:
+            pst['broken'].append('coqchk rejected properties/%s.vo: %s' % (pid, chk['tail'][-300:]))
+            pst['discharged'] = 0
 
     # cases
     corpus = []
@@ -237,6 +291,19 @@ def run_check(mod_name, tier, seed, replay=None):
                         all_dis.append((c, r['dis']))
 
     sweep(cases)
+
+    # extraction cross-check: the smallest programs of this run, evaluated by vm_compute inside Coq
+    vm = dict(checked=0, mismatches=[])
+    if model_ok and cases:
+        try:
+            small = sorted((P.program(c) for c in cases[:400]), key=len)[:12]
+            small = [p for p in small if len(p) <= 400]
+            if small:
+                vm = vm_crosscheck(pid, small)
+                if vm['mismatches']:
+                    all_dis.append((None, [(None, 'vm_compute-vs-extraction', vm['mismatches'], None)]))
+        except Exception as x:
+            vm = dict(checked=0, mismatches=[], error=repr(x))
 
     violation = None
     un_cases = [(c, unexplained(P, f, known)) for c, f in all_fail]
@@ -301,7 +368,8 @@ def run_check(mod_name, tier, seed, replay=None):
                   random_cases=len(rand), corpus_cases=len(corpus), widened_after_break=extra_scope,
                   operations_executed=stats['nops'], input_distribution=stats['classes'],
                   model_impl_disagreements=stats['ndis'], cases_failing_only_by_known_findings=n_known_fail,
-                  known_findings_seen=kf_lines, validated_only=P.validated_only),
+                  known_findings_seen=kf_lines, validated_only=P.validated_only, vm_compute_crosschecked=vm,
+                  coqchk=(None if chk is None else dict(ok=chk['ok'], axioms=chk['axioms']))),
               assumptions=P.assumptions)
     os.makedirs(os.path.join(VERIF, 'evidence'), exist_ok=True)
     json.dump(jsonable(ev), open(os.path.join(VERIF, 'evidence', pid + '.json'), 'w'), indent=1)
